@@ -736,7 +736,8 @@ def set_cases(E, ctx):
         _key_pair_facts_hex(E, K, q, Dold)
         HM.unfold_wf(E, Dn)
         return [("view", mk_bool(HM.hlk(Dn, q) == hview_after_set(Dold, K, V, q))),
-                ("never-blank", mk_bool(z3.Not(HNode.is_HBlank(Dn))))]
+                ("never-blank", mk_bool(z3.Not(HNode.is_HBlank(Dn)))),
+                ("well-formed", mk_bool(HM.hwfp(Dn)))]
 
     def make():
         Dn = z3.Const(E.fresh_name("_set.D"), HNode)
@@ -798,8 +799,7 @@ def _register_write(reg):
 
 def fresh_branch(E, base="node"):
     D = z3.Const(E.fresh_name(base + ".D"), HNode)
-    E.assume(mk_bool(z3.And(HNode.is_HBranch(D), HM.hwfp(D))))
-    HM.unfold_wf(E, D)
+    E.assume(mk_bool(z3.And(HNode.is_HBranch(D), HM.hwf_children(E, D))))
     return HM.materialize(E, D), D
 
 
@@ -823,7 +823,7 @@ def norm_setup(E):
 def norm_requires(E, ctx):
     D = HM.alpha(ctx.node)
     return [("branch", mk_bool(HNode.is_HBranch(D))), ("something-left", mk_bool(nonblank_count(D) >= 1)),
-            ("well-formed", mk_bool(HM.hwfp(D)))]
+            ("children-well-formed", mk_bool(HM.hwf_children(E, D)))]
 
 
 def norm_cases(E, ctx):
@@ -907,6 +907,7 @@ def del_cases(E, ctx):
         HM.unfold_hlk(E, Dold, q, depth=1)
         HM.unfold_hlk(E, Dn, q, depth=3)
         _key_pair_facts_hex(E, K, q, Dold)
+        _merged_path_facts(E, Dn, q, K)
         HM.unfold_wf(E, Dn)
         return [("view", mk_bool(HM.hlk(Dn, q) == hview_after_del(Dold, K, q))), ("well-formed", mk_bool(HM.hwfp(Dn)))]
 
@@ -922,6 +923,25 @@ def del_cases(E, ctx):
     mods = [db] + ([ctx.node] if (unit_mode and isinstance(ctx.node, ListObj)) else [])
     return [Case("updated", ensures=ens if unit_mode else None, make=None if unit_mode else make, modifies=mods),
             Case("missing-node", raises=KeyError, modifies=mods)]
+
+
+def _merged_path_facts(E, Dn, q, K):
+    """a node whose path is a ++ b (an extension merged with what is left below it): walking it is walking a, then b"""
+    from contracts import seqlemmas as SL
+    Dn = z3.simplify(Dn)
+    if not (HM.is_constructor(Dn) and Dn.decl().name() in ("HLeaf", "HExt")):
+        return
+    P = z3.simplify(Dn.arg(0))
+    if z3.is_app(P) and P.decl().kind() == z3.Z3_OP_SEQ_CONCAT and P.num_args() == 2:
+        a, b = P.arg(0), P.arg(1)
+        for x in (q, K):
+            SL.use(E, "prefix_concat", a, b, x)
+            SL.use(E, "eq_concat", a, b, x)
+            SL.use(E, "tail_tail", x, z3.Length(a), z3.Length(b))
+            SL.use(E, "prefix_is_slice", a, x)
+        SL.use(E, "eq_strip", a, K, q)
+        SL.use(E, "prefix_strip", a, K, q)
+        SL.use(E, "prefix_strip", a, q, K)
 
 
 def _register_write2(reg):
